@@ -291,6 +291,24 @@ def serialize(pe):
     return 'V ' + ' '.join((b.final.hex() or '-') for b in (g, c, p))
 
 
+SEMS = {}      # DEF id -> (LanguageSemantics, number of axioms): several definitions alive in one process
+
+
+def rules_answer(sem, n_axioms):
+    from proof_generation.k.kore_convertion.language_semantics import KRewritingRule
+    parts = []
+    for o in range(n_axioms):
+        try:
+            ax = sem.get_axiom(o)
+        except ValueError:
+            continue
+        scope = sem._cached_axiom_scopes[o]
+        parts.append('%d %s %s | %s | %s' % (o, 'R' if isinstance(ax, KRewritingRule) else 'Q', pat_str(ax.pattern),
+                                             ','.join(hexs(n) for n in scope._metavars),
+                                             ','.join(hexs(n) for n in scope._sort_param_metavars)))
+    return 'OK %d [%s]' % (len(parts), ' ; '.join(parts))
+
+
 def run(line):
     st = Stream(line.split())
     cmd = st.next()
@@ -312,6 +330,36 @@ def run(line):
                   == [100 + i for i in range(len(scope._sort_param_metavars))])
         unused = bool(scope._evars or scope._svars)
         return {'res': 'OK %s | %s | %s' % (pat_str(pat), names, snames) + ('' if ids_ok and not unused else ' !ids')}
+    if cmd in ('DEF', 'DEF2'):
+        ident = st.next()
+        sig = p_sig(st)
+        axs = [p_kore(st) for _ in range(st.int())]
+        SEMS.pop(ident, None)
+        try:
+            sem = LanguageSemantics.from_kore_definition(definition(sig, axs, cmd == 'DEF2'))
+        except Exception as e:  # noqa: BLE001
+            return {'res': 'NONE', 'exc': '%s: %s' % (type(e).__name__, str(e)[:200]), 'stage': 'load'}
+        SEMS[ident] = (sem, len(axs))
+        return {'res': rules_answer(sem, len(axs))}
+    if cmd == 'USE':
+        ident = st.next()
+        init = p_kore(st)
+        items = [p_item(st) for _ in range(st.int())]
+        if ident not in SEMS:
+            return {'res': 'NONE', 'exc': 'definition failed to load', 'stage': 'load'}
+        sem = SEMS[ident][0]
+        try:
+            hints = get_proof_hints(LLVMRewriteTrace((), init, tuple(items)), sem)
+            pe = ExecutionProofExp.from_proof_hints(hints, sem)
+        except Exception as e:  # noqa: BLE001
+            return {'res': 'NONE', 'exc': '%s: %s' % (type(e).__name__, str(e)[:200]), 'stage': 'run'}
+        out = {'res': 'OK A %s C %s P %s' % (pats_str(pe._axioms), pats_str(pe._claims),
+                                              pats_str([t.conc for t in pe._proof_expressions]))}
+        try:
+            out['ser'] = serialize(pe)
+        except Exception as e:  # noqa: BLE001
+            out['ser_exc'] = '%s: %s' % (type(e).__name__, str(e)[:200])
+        return out
     if cmd in ('RULES', 'RULES2'):
         from proof_generation.k.kore_convertion.language_semantics import KRewritingRule
         sig = p_sig(st)
